@@ -108,7 +108,11 @@ theorem step_error (s : St) (op : Op) :
   | handlerErr id => simp only [step]; split <;> simp [abort_error, firstOf_nil]
   | paramErr => simp [step, firstOf_nil]
   | unknownEvt => simp [step, firstOf_nil]
-  | nestedUnknown => simp [step, firstOf_nil]
+  | nestedUnknown c =>
+    simp only [step]
+    split
+    · split <;> simp [firstOf_nil]
+    · simp [firstOf_nil]
   | ctrlAbort id => simp only [step]; split <;> simp [abort_error, firstOf_nil]
   | ctrlShutdown => simp only [step]; split <;> simp [abort_error, firstOf_nil]
   | armCalc a =>
